@@ -7,9 +7,14 @@ here by 5-point central differences) and checks, with Coq-Interval goals,
   G  : FCN.get_nll_grad gradient        vs grad_default / grad_cfit / grad_cfit_ext on the captured values
   H  : FCN.get_nll_grad_hessian Hessian vs hess_default / hess_cfit / hess_cfit_ext
   T  : FCN/CombineFCN totals (sum of parts + Gaussian-constraint gradient / Hessian), value alongside = stand-alone
-  P  : FCN.grad_hessp = (H + H_c) p and its gradient = nll_grad's gradient
+  P  : FCN.grad_hessp = (H + H_c) p and its gradient = nll_grad's gradient (every model, the cfit family included)
   B  : gradient for other batch sizes = gradient at the first batch size
   X  : VarsManager.trans_fcn_grad / trans_f_grad_hess / trans_grad_hessp and Bound.get_x2y/get_dydx/get_d2ydx2
+  L  : event densities below the clip threshold 1e-6 / an event of weight 0: value alongside = stand-alone value, gradient and
+       Hessian = Richardson finite differences of the implementation's own stand-alone value / gradient (no per-event tie)
+  fg : fit_improve.Cached_FG (value, scaled gradient, NaN components replaced by the central difference Grad.fd_central)
+Gaussian constraints are collected per variable cell: a constraint keyed by the non-head name of a var_equal pair acts on the
+trainable head (Grad.gauss_cell_grad / gauss_cell_hess), several constraints on one cell add up.
 """
 import math
 import os
@@ -791,7 +796,10 @@ def run(ctx):
     ctx.rule = ("seeded scenarios: likelihood model x 1-2 data sets x weights (unit/positive/mixed, bg kinds) as in C06, 2-6 free parameters "
                 "(couplings r/phi, a mass, a width, tied pair, Gaussian-constrained, bounded with the three default transforms); 8-24 data, 10-30 MC events; "
                 "one Coq-Interval goal per gradient component and per (sampled) Hessian entry on TF-captured per-event derivatives, arithmetic goals for totals, "
-                "H.p, value-alongside, batch sizes {1,3,N-1,N,N+5}, trans_* wrappers; distinct = scenario points")
+                "H.p (all models), value-alongside, batch sizes {1,3,N-1,N,N+5}, trans_* wrappers; tied pairs carry a Gaussian constraint on the non-head "
+                "name (alone or together with one on the head); low-density scenarios (one cfit event of density ~1e-9, or all couplings scaled so that "
+                "the clip threshold lies in the widest gap of the sorted densities; one event of weight 0) checked by value identities and Richardson "
+                "finite differences; Cached_FG on seeded cubic polynomials with 0..n NaN gradient components; distinct = scenario points")
     common.theorem_stage(ctx)
     items = [(ctx.dir, ctx.tier, it, rnd.randrange(1 << 60)) for it in plan(ctx, rnd)]
     items.sort(key=lambda a: -a[2][2])
@@ -837,11 +845,21 @@ def run(ctx):
                      % (res[cid], meta["site"], meta.get("model"), meta.get("param")),
                      inp={k: (v if not isinstance(v, (list, tuple)) or len(v) < 12 else str(v)[:200]) for k, v in meta.items() if k not in ("bound_case", "case_info")},
                      site=meta["site"], fingerprint="%s:%s" % (meta.get("model"), meta["layer"]), failing_input=fi)
+    by_site = {}
+    for f in ctx.failures:
+        key = "%s [%s]" % (f.get("site"), f.get("fingerprint"))
+        by_site[key] = by_site.get(key, 0) + 1
+    if by_site:
+        ctx.log("failures by site [fingerprint]: " + "; ".join("%d x %s" % (v, k) for k, v in sorted(by_site.items(), key=lambda t: -t[1])))
     return common.finish(ctx, search=search, technique=TECHNIQUE, extra_assumptions=[
         "ORACLE: TensorFlow autodiff of the amplitude alone returns its partial derivatives (per-event f, d_k f, d_k d_l f are captured with tf.GradientTape); "
         "cross-checked each run by 5-point central differences of amp (rel 2e-5)",
         "tolerances: gradients/Hessians rtol 1e-7 (of the sum of |terms|) + atol 1e-9; H.p against the implementation's own (tied) Hessian",
-        "densities above the clip threshold (interior of the domain); inject_mc, resolution_size > 1, constr_frac models, using_mix_likelihood not covered",
+        "per-event Coq ties use densities above the clip threshold; below it (and for zero event weights) the value identities and "
+        "finite differences of the implementation's own value / gradient are checked (rel 1e-7 / 1e-6), no per-event tie",
+        "not covered: inject_mc, constr_frac models, using_mix_likelihood, pre_trans / from_trans (FCN argument = transformed value, derivatives w.r.t. "
+        "the raw variable: root of the open C09 finding pre_trans:error_of_raw_variable), a polar/Cartesian switch of a live FCN with traced graphs "
+        "(use_tf_function, cached_amp, cached_int), cached_int with floating masses or widths (documented precondition)",
     ])
 
 
